@@ -350,6 +350,11 @@ func validateFileContracts(ms *MidState, txn types.Transaction, ts V1Transaction
 		copy(buf[1:], leaf)
 		root := types.HashBytes(buf)
 		subtreeHeight := bits.Len64(leafIndex ^ lastLeafIndex(filesize))
+		if filesize > 0 && len(proof) < subtreeHeight {
+			// a proof this short cannot be the proof of leafIndex: it would
+			// place another leaf's hash at a higher position in the tree
+			return types.Hash256{}
+		}
 		for i, h := range proof {
 			if leafIndex&(1<<i) != 0 || i >= subtreeHeight {
 				root = blake2b.SumPair(h, root)
